@@ -424,7 +424,7 @@ package entities
 //@ func (s *set) AddRecordV2(elements, templateID) (err)
 //@   requires inv: setInv(s) && recsSafe(s)
 //@   requires el:  (s.setType == Data ==> elemsWF(elements, len(elements))) && (s.setType == Template ==> elemsNN(elements, len(elements)))
-//@   requires cnt: len(elements) <= 65535
+//@   requires cnt: s.setType == Data ==> len(elements) <= 65535
 //@   ensures  ok:  (err == nil) <==> (old(s.setType) == Data || old(s.setType) == Template)
 //@   ensures  added: err == nil ==> len(s.records) == old(len(s.records)) + 1 && addedView(s.records[old(len(s.records))], elements, templateID, s.setType)
 //@   ensures  keep: forall i in [0, old(len(s.records))): s.records[i] == old(s.records[i])
@@ -434,6 +434,7 @@ package entities
 //@   ensures  len: err == nil ==> s.length == old(s.length) + recLen(s.records[old(len(s.records))])
 //@   ensures  oldrecs: forall i in [0, old(len(s.records))): recSafe(s.records[i])
 //@   ensures  newrec:  err == nil ==> recOK(s.records[old(len(s.records))])
+//@   ensures  newfresh: err == nil ==> fresh(s.records[old(len(s.records))].(*baseRecord))
 //@   ensures  newdec:  err == nil && s.setType == Data ==> s.records[old(len(s.records))].(*dataRecord).isDecoding == s.isDecoding
 //@   ensures  inv: setInv(s)
 //@   modifies s.records, s.length, s.records[*]
@@ -441,7 +442,7 @@ package entities
 //@ func (s *set) AddRecordWithExtraElements(elements, numExtraElements, templateID) (err)
 //@   requires inv: setInv(s) && recsSafe(s)
 //@   requires el:  (s.setType == Data ==> elemsWF(elements, len(elements))) && (s.setType == Template ==> elemsNN(elements, len(elements)))
-//@   requires cnt: len(elements) <= 65535 && 0 <= numExtraElements
+//@   requires cnt: (s.setType == Data ==> len(elements) <= 65535) && 0 <= numExtraElements
 //@   ensures  okdata: old(s.setType) == Data ==> err == nil
 //@   ensures  errty:  old(s.setType) != Data && old(s.setType) != Template ==> err != nil
 //@   ensures  added: err == nil ==> len(s.records) == old(len(s.records)) + 1 && addedView(s.records[old(len(s.records))], elements, templateID, s.setType)
@@ -452,6 +453,7 @@ package entities
 //@   ensures  len: err == nil ==> s.length == old(s.length) + recLen(s.records[old(len(s.records))])
 //@   ensures  oldrecs: forall i in [0, old(len(s.records))): recSafe(s.records[i])
 //@   ensures  newrec:  err == nil ==> recOK(s.records[old(len(s.records))])
+//@   ensures  newfresh: err == nil ==> fresh(s.records[old(len(s.records))].(*baseRecord))
 //@   ensures  newdec:  err == nil && s.setType == Data ==> s.records[old(len(s.records))].(*dataRecord).isDecoding == s.isDecoding
 //@   ensures  inv: setInv(s)
 //@   modifies s.records, s.length, s.records[*]
@@ -472,7 +474,7 @@ package entities
 //@ func (s *set) AddRecord(elements, templateID) (err)
 //@   requires inv: setInv(s) && recsSafe(s)
 //@   requires el:  (s.setType == Data ==> elemsWF(elements, len(elements))) && (s.setType == Template ==> elemsNN(elements, len(elements)))
-//@   requires cnt: len(elements) <= 65535
+//@   requires cnt: s.setType == Data ==> len(elements) <= 65535
 //@   ensures  okdata: old(s.setType) == Data ==> err == nil
 //@   ensures  errty:  old(s.setType) != Data && old(s.setType) != Template ==> err != nil
 //@   ensures  added: err == nil ==> len(s.records) == old(len(s.records)) + 1 && addedView(s.records[old(len(s.records))], elements, templateID, s.setType)
@@ -483,6 +485,7 @@ package entities
 //@   ensures  len: err == nil ==> s.length == old(s.length) + recLen(s.records[old(len(s.records))])
 //@   ensures  oldrecs: forall i in [0, old(len(s.records))): recSafe(s.records[i])
 //@   ensures  newrec:  err == nil ==> recOK(s.records[old(len(s.records))])
+//@   ensures  newfresh: err == nil ==> fresh(s.records[old(len(s.records))].(*baseRecord))
 //@   ensures  newdec:  err == nil && s.setType == Data ==> s.records[old(len(s.records))].(*dataRecord).isDecoding == s.isDecoding
 //@   ensures  inv: setInv(s)
 //@   modifies s.records, s.length, s.records[*]
@@ -493,6 +496,24 @@ package entities
 //@   ensures  one: len(r.records) == 1 && addedView(r.records[0], ies, templateID, Data)
 //@   ensures  hdr: len(r.headerBuffer) == 4 && be16(r.headerBuffer, 0) == templateID
 //@   ensures  inv: setInv(r) && recOK(r.records[0]) && r.length == 4 + recLen(r.records[0])
+
+//@ // MakeTemplateSet: the template set the exporter re-sends on the UDP refresh path (and applications use as a convenience):
+//@ // one template record for (templateID, ies), built from empty elements of the given information elements, in order
+//@ func MakeTemplateSet(templateID, ies) (r, err)
+//@   requires el:  forall j in [0, len(ies)): ies[j] != nil
+//@   ensures  erronly: err == nil ==> (forall j in [0, len(ies)): supportedKind(ies[j].DataType))
+//@   ensures  errnil: err != nil ==> r == nil
+//@   ensures  ok:  err == nil ==> r != nil && fresh(r) && !r.isDecoding && r.setType == Template
+//@   ensures  one: err == nil ==> len(r.records) == 1 && is(r.records[0], *templateRecord) && fresh(r.records[0].(*baseRecord)) && tplOK(r.records[0].(*templateRecord))
+//@                  && r.records[0].(*templateRecord).templateID == templateID && len(r.records[0].(*templateRecord).orderedElementList) == len(ies)
+//@                  && (forall j in [0, len(ies)): ie(r.records[0].(*templateRecord).orderedElementList[j]) == ies[j])
+//@   ensures  hdr: err == nil ==> len(r.headerBuffer) == 4 && be16(r.headerBuffer, 0) == 2 && fresh(r.headerBuffer) && fresh(r.records)
+//@   ensures  inv: err == nil ==> setInv(r) && recOK(r.records[0]) && r.length == 4 + recLen(r.records[0])
+//@   loop 1 invariant cnt:  0 <= $i && $i <= len(ies) && len(elements) == len(ies) && fresh(elements)
+//@   loop 1 invariant done: forall j in [0, $i): !isnil(elements[j]) && ie(elements[j]) == ies[j] && supportedKind(ies[j].DataType)
+//@   loop 1 invariant set:  tempSet != nil && fresh(tempSet) && setInv(tempSet) && !tempSet.isDecoding && tempSet.setType == Template && len(tempSet.records) == 0
+//@                  && len(tempSet.headerBuffer) == 4 && be16(tempSet.headerBuffer, 0) == 2 && fresh(tempSet.headerBuffer)
+//@   loop 1 decreases len(ies) - $i
 
 //@ func NewInfoElement(name, ieID, ieType, entID, len) (r)
 //@   ensures r: r != nil && fresh(r) && r.Name == name && r.ElementId == ieID && r.DataType == ieType && r.EnterpriseId == entID && r.Len == len
